@@ -196,7 +196,8 @@ def snapshot(m, cs):
 
     def tdef(v):
         if isinstance(v, str):
-            return [A("str"), v]
+            # an alias added by name (add_type("alias", "uint32")) stands for the type it resolves to (the generator resolves it: fixed F60)
+            v = cs.resolve(v)
         if issubclass(v, (T.Enum, T.Flag)):
             return [A("enum"), v.__name__, v.__base__.__name__, list(v.__members__)]
         if issubclass(v, (T.Pointer, T.BaseArray, T.Structure)):
@@ -349,7 +350,7 @@ def oracle(m, cs, stub: str):
     for k in utypes:
         t = cs.typedefs[k]
         if isinstance(t, str):
-            continue
+            t = cs.resolve(t)
         if k in classes:
             c = classes[k]
             if t.__name__ != k:
@@ -460,6 +461,17 @@ def run(env) -> Result:
             continue
         data = {"definitions": text}
         empty = m.cstruct()
+        # aliases added by NAME through the API (the built-in table uses the same form): cs.add_type("alias", "target")
+        if rnd.random() < 0.25:
+            targets = [k for k in cs.typedefs if k not in empty.typedefs and k.isidentifier()] + ["uint32", "int8", "char", "DWORD", "wchar", "float"]
+            try:
+                for j in range(rnd.randint(1, 2)):
+                    tgt = rnd.choice(targets)
+                    cs.add_type(f"al{j}_{i}", tgt)
+                    data.setdefault("aliases_by_name", []).append([f"al{j}_{i}", tgt])
+                res.feat("alias-by-name")
+            except Exception as e:  # noqa: BLE001
+                res.feat("alias-by-name:rejected:" + type(e).__name__)
         nuser = len([k for k in cs.typedefs if k not in empty.typedefs]) + len(cs.consts)
         res.count(text, nuser >= 2)
         sig = None
